@@ -37,11 +37,16 @@ def gen_scenario(rng, idx):
         elif k < 0.72:
             s = rng.choice(tracked)
             d = rng.choice(sorted(files) + ["new.txt", "d/new.txt", "o/", "d/"])     # existing (tracked or not) or new destinations
-            items.append(["copy", {"nr": rng.random() < 0.15}, s, d])
+            if s.startswith("d/") and rng.random() < 0.5:
+                d = rng.choice([q for q in sorted(files) if q.startswith("d/")] + ["d/new.txt", "d/u2.txt"])
+            items.append(["copy", {"nr": rng.random() < 0.15, "cwd": "d" if (s.startswith("d/") and d.startswith("d/") and d != "d/" and rng.random() < 0.6) else None}, s, d])
         elif k < 0.87:
             s = rng.choice(tracked)
             d = rng.choice(sorted(files) + ["mv.txt", "d/mv.txt", "o/"])
-            items.append(["move", {"as": rng.choice([None, None, "symlink", "hardlink", "copy"]), "nr": rng.random() < 0.15}, s, d])
+            if s.startswith("d/") and rng.random() < 0.5:
+                d = rng.choice([q for q in sorted(files) if q.startswith("d/")] + ["d/mv.txt", "d/u2.txt"])
+            items.append(["move", {"as": rng.choice([None, None, "symlink", "hardlink", "copy"]), "nr": rng.random() < 0.15,
+                                   "cwd": "d" if (s.startswith("d/") and d.startswith("d/") and d != "d/" and rng.random() < 0.6) else None}, s, d])
         elif k < 0.94:
             items.append(["untrack", {}, [rng.choice(tracked)]])
         else:
@@ -100,7 +105,13 @@ def run_scenario(xvc, sc):
                 args = ["file", "untrack"] + it[2]
             else:
                 args = ["file", "list", "--no-summary"]
-            r = rp.xvc("--skip-git", *args)
+            cwd = None
+            if k in ("copy", "move") and o.get("cwd"):
+                pre = o["cwd"] + "/"
+                args = [a[len(pre):] if (isinstance(a, str) and a.startswith(pre)) else a for a in args]
+                cwd = rp.path(o["cwd"])
+                os.makedirs(cwd, exist_ok=True)
+            r = rp.xvc("--skip-git", *args, cwd=cwd)
             out["cmds"] += 1; out["kinds"][k] = out["kinds"].get(k, 0) + 1
             out["refused"] += 1 if r.failed and not r.panicked else 0
             after = reach(rp.root)
